@@ -46,6 +46,17 @@ add(
     "DESIGN.md 6/C18",
 )
 
+add(
+    "C19",
+    "exploration",
+    "Generated point sets against brute-force dominance / layer peeling (plus complete enumeration of all 2-D sets with N<=4 on a "
+    "3x3 grid), and generated MOASHA runs (reduction factor, grace period, brackets, mode lists, three priorities, report "
+    "interleavings) against a reference rung model; a decision is a violation only if no layer-consistent order justifies it.",
+    "Trials report consecutive levels; order inside a Pareto layer is free; brackets are read from the scheduler's trial->bracket map.",
+    "property-based testing (Hypothesis choice tape) + exhaustive enumeration of a small sub-space: brute-force reference model",
+    "DESIGN.md 6/C19",
+)
+
 NOT_YET = {}
 
 ALL = [f"C{i:02d}" for i in range(1, 21)]
